@@ -58,7 +58,10 @@ func (l *LSTM) Init(n *onnx.NodeProto) error {
 		case ops.HiddenSizeAttr:
 			l.hiddenSize = int(attr.GetI())
 		case "input_forget":
-			l.inputForget = attr.GetI() == 1
+			l.inputForget = attr.GetI() != 0
+			if l.inputForget {
+				return ops.ErrUnsupportedAttribute(attr.GetName(), l)
+			}
 		default:
 			return ops.ErrInvalidAttribute(attr.GetName(), l)
 		}
